@@ -151,6 +151,7 @@ class CreditControlAnswer(CreditControl):
         AvpGenDef("qos_final_unit_indication", AVP_QOS_FINAL_UNIT_INDICATION, type_class=QosFinalUnitIndication),
         AvpGenDef("check_balance_result", AVP_CHECK_BALANCE_RESULT),
         AvpGenDef("credit_control_failure_handling", AVP_CREDIT_CONTROL_FAILURE_HANDLING),
+        AvpGenDef("direct_debiting_failure_handling", AVP_DIRECT_DEBITING_FAILURE_HANDLING),
         AvpGenDef("validity_time", AVP_VALIDITY_TIME),
         AvpGenDef("redirect_host", AVP_REDIRECT_HOST),
         AvpGenDef("redirect_host_usage", AVP_REDIRECT_HOST_USAGE),
